@@ -260,6 +260,19 @@ fn c18_slices<D: Dec>(run: &mut Run) {
             }
         }
     }
+    // add_word beyond 11 bits: Keyboard must treat a u16 exactly as its own frame stage does
+    // (the reference is the crate's Ps2Decoder, so what that stage does with the high bits is
+    // not judged, only that the wrapper adds or removes nothing): all 63488 words >= 0x800 x
+    // {no prefix, a prefix pending} x {no bits, 3 bits pending}
+    for w in 0x800..=0xFFFFu16 {
+        for c in [&ctxs[0], &ctxs[ctxs.len() - 1]] {
+            for (nb, p) in [(0usize, 0u16), (3, 0b101)] {
+                let mut setup: Vec<Op> = c.iter().map(|b| Op::Byte(*b)).collect();
+                setup.extend(bits_ops(p, nb));
+                do_case(run, setup, vec![Op::Word(w)], true);
+            }
+        }
+    }
     let after_words = n.get();
     // add_byte: 256 x contexts x 64 frame states x 8 modifier states
     let fstates = sampled_frame_states();
